@@ -110,7 +110,19 @@ fn recover(sc : &mut Scenario, base : &Disk, snap : &Snapshot, rng : &mut Rng, t
     out
 }
 
-pub fn drive()
+/*  C07 and C08 quantify over the crash points of C11 as well: the same kill instants, audited only for that property
+    (cache names resp. content containment at the kill instant), reported under the property itself. */
+fn audit_at_kill(prop : &str, sc : &Scenario, base : &Disk, snap : &Snapshot) -> Vec<Violation>
+{
+    let torn = match snap.torn { Some(k) => format!(" with the first {} bytes of it on disk", k), None => "".to_string() };
+    let found = if prop == "C07" { world::m_cas(&snap.disk).0 } else { world::m_keep(base, &snap.disk, &sc.run.world.ever_targets).0 };
+    found.into_iter().filter(|v| v.property == prop).map(|v| Violation::new(prop, &format!("at-kill:{}:{}", v.signature, classify_pending(&snap.pending)),
+        format!("killed after {} mutations (next: {}{}): {}", snap.index, snap.pending, torn, v.what))).collect()
+}
+
+pub fn drive() { drive_prop("C11"); }
+
+pub fn drive_prop(prop : &str)
 {
     let params = Params::from_env("crash");
     let mut tally = Tally::new();
@@ -177,7 +189,7 @@ pub fn drive()
                 tally.counts.inc(&format!("kill-before:{}", classify_pending(&snap.pending)));
                 if snap.torn.is_some() { tally.counts.inc("torn_write_snapshots"); }
 
-                let found = recover(&mut sc, &base, snap, &mut rng, &mut tally);
+                let found = if prop == "C11" { recover(&mut sc, &base, snap, &mut rng, &mut tally) } else { audit_at_kill(prop, &sc, &base, snap) };
                 if found.len() > 0
                 {
                     let detail = J::obj(vec![
@@ -215,3 +227,5 @@ pub fn drive()
 }
 
 #[test] #[ignore] fn crash_c11() { drive(); }
+#[test] #[ignore] fn crash_c07() { drive_prop("C07"); }
+#[test] #[ignore] fn crash_c08() { drive_prop("C08"); }
